@@ -211,19 +211,61 @@ package sam
 //@   loop 1
 //@     invariant len(strs) == len(p) && forall k int :: 0 <= k && k < len(p) ==> p[k] != nil
 
+// parseTags (C03, C11): decoder = spec (specs/25sam.spec: tagOK, tname, tval). Every field must be well formed;
+// the result maps each name to the typed value of its LAST occurrence and has no other keys.
 //@ func parseTags
-//@   props C11
-//@   thin
+//@   props C03 C11
+//@   fresh-result
+//@   let n := len(values)
 //@   ensures result.1 == nil || localErr(result.1)
+//@   ensures @C03 result.1 == nil <==> forall j int :: 0 <= j && j < n ==> tagOK(values[j])
+//@   ensures @C03 result.1 == nil ==> !isnil(result.0)
+//@   ensures @C03 result.1 == nil ==> forall j int :: 0 <= j && j < n ==> has(result.0, tname(values[j]))
+//@   ensures @C03 result.1 == nil ==> forall j int :: 0 <= j && j < n && (forall i int :: j < i && i < n ==> tname(values[i]) != tname(values[j])) ==>
+//@             result.0[tname(values[j])] == tval(values[j])
+//@   ensures @C03 result.1 == nil ==> forall k string :: has(result.0, k) ==> exists j int :: 0 <= j && j < n && tname(values[j]) == k
+//@   loop 1
+//@     invariant !isnil(result) && 0 <= K && K <= n
+//@     invariant forall j int :: 0 <= j && j < K ==> tagOK(values[j])
+//@     invariant forall j int :: 0 <= j && j < K ==> has(result, tname(values[j]))
+//@     invariant forall j int :: 0 <= j && j < K && (forall i int :: j < i && i < K ==> tname(values[i]) != tname(values[j])) ==>
+//@                 result[tname(values[j])] == tval(values[j])
+//@     invariant forall k string :: has(result, k) ==> exists j int :: 0 <= j && j < K && tname(values[j]) == k
 
 //@ func splitTag
-//@   props C11
-//@   thin
+//@   props C03 C11
+//@   let c1 := colon1(tag)
+//@   let c2 := colon2(tag)
 //@   ensures result.1 == nil || localErr(result.1)
+//@   ensures @C03 result.1 == nil <==> c2 < len(tag)
+//@   ensures @C03 result.1 == nil ==> len(result.0[0]) == c1 && forall j int :: 0 <= j && j < c1 ==> result.0[0][j] == tag[j]
+//@   ensures @C03 result.1 == nil ==> len(result.0[1]) == c2 - c1 - 1 && forall j int :: 0 <= j && j < c2 - c1 - 1 ==> result.0[1][j] == tag[c1 + 1 + j]
+//@   ensures @C03 result.1 == nil ==> len(result.0[2]) == len(tag) - c2 - 1 && forall j int :: 0 <= j && j < len(tag) - c2 - 1 ==> result.0[2][j] == tag[c2 + 1 + j]
+//@   ensures @C03 result.1 == nil ==> result.0[0] == substr(tag, 0, c1) && result.0[1] == substr(tag, c1 + 1, c2) && result.0[2] == substr(tag, c2 + 1, len(tag))
 //@   loop 1
 //@     invariant 0-1 <= colon1 && colon1 < i && colon2 == 0-1 && i <= len(tag)
+//@     invariant colon1 == 0-1 ==> forall j int :: 0 <= j && j < i ==> tag[j] != ':'
+//@     invariant colon1 != 0-1 ==> colon1 == c1 && forall j int :: c1 < j && j < i ==> tag[j] != ':'
 
 // ---- writer ----
+
+// tagToText (C03): NAME ':' type letter ':' value text, the value text being the byte itself (A), the decimal
+// rendering (i), FormatFloat 'e' (f), the string (Z) or lower-case hex (H); any other dynamic type panics.
+//@ func tagToText
+//@   props C03
+//@   panics !(dynbyte(val) || dynint(val) || dynfloat(val) || dynstr(val) || dynbytes(val))
+//@   let n := len(tag)
+//@   ensures forall j int :: 0 <= j && j < n ==> result[j] == tag[j]
+//@   ensures len(result) >= n + 3 && result[n] == ':' && result[n + 2] == ':'
+//@   ensures dynbyte(val) ==> result[n + 1] == 'A' && len(result) == n + 4 && result[n + 3] == asint(val)
+//@   ensures dynint(val) ==> result[n + 1] == 'i' && len(result) == n + 3 + len(itoa(asint(val))) &&
+//@             forall j int :: 0 <= j && j < len(itoa(asint(val))) ==> result[n + 3 + j] == itoa(asint(val))[j]
+//@   ensures dynfloat(val) ==> result[n + 1] == 'f' && len(result) == n + 3 + len(ffmt(asreal(val))) &&
+//@             forall j int :: 0 <= j && j < len(ffmt(asreal(val))) ==> result[n + 3 + j] == ffmt(asreal(val))[j]
+//@   ensures dynstr(val) ==> result[n + 1] == 'Z' && len(result) == n + 3 + len(asstr(val)) &&
+//@             forall j int :: 0 <= j && j < len(asstr(val)) ==> result[n + 3 + j] == asstr(val)[j]
+//@   ensures dynbytes(val) ==> result[n + 1] == 'H' && len(result) == n + 3 + len(hexenc(arr(asbytes(val)), len(asbytes(val)))) &&
+//@             forall j int :: 0 <= j && j < len(hexenc(arr(asbytes(val)), len(asbytes(val)))) ==> result[n + 3 + j] == hexenc(arr(asbytes(val)), len(asbytes(val)))[j]
 
 //@ func tagsToText
 //@   props C03 C07
